@@ -15,6 +15,9 @@ package fsm_test
 //	    started from A's persisted state in front of the window
 //	C   restart from the persisted state file at PRNG points followed by a
 //	    replay that overlaps already applied indices
+//	R   restart (state-file Load, and snapshot Decode+Restore into a fresh FSM)
+//	    placed so that the FIRST command afterwards is a verbatim re-send of the
+//	    last effective command of some kind
 //
 // Asserted (only what the statement promises):
 //   - state after every batch == A's state after the same entry (canonical
@@ -58,6 +61,9 @@ type c18Entry struct {
 	Term  uint64
 	Raw   []byte
 	Cmd   command.Command
+	// Resend is the kind of the command when it is a verbatim re-send of the
+	// last effective command of that kind ("" otherwise).
+	Resend command.Kind
 }
 
 // c18MemStore is an in-memory fsm.Store with the same encode-on-save /
@@ -158,6 +164,45 @@ func c18CheckState(r *verifkit.Run, where string, st state.ClusterState) {
 	if err != nil || !bytes.Equal(enc, enc2) {
 		r.Violation("codec-not-canonical:"+where, map[string]any{"enc": string(enc), "enc2": string(enc2)})
 	}
+}
+
+// c18DeepDiff names the first section in which two states differ under
+// reflect.DeepEqual ("" when deep-equal). The FSM's own no-op detection uses
+// reflect.DeepEqual on in-memory sections, so a state that went through the
+// codec must have exactly the in-memory shape (nil vs empty included), not just
+// the same canonical bytes.
+func c18DeepDiff(a, b state.ClusterState) string {
+	switch {
+	case a.SchemaVersion != b.SchemaVersion || a.ClusterID != b.ClusterID || a.Revision != b.Revision || a.AppliedRaftIndex != b.AppliedRaftIndex || a.Checksum != b.Checksum:
+		return "header"
+	case !reflect.DeepEqual(a.UpdatedAt, b.UpdatedAt):
+		return "updated_at"
+	case !reflect.DeepEqual(a.Config, b.Config):
+		return "config"
+	case !reflect.DeepEqual(a.Controllers, b.Controllers):
+		return "controllers"
+	case !reflect.DeepEqual(a.Nodes, b.Nodes):
+		return "nodes"
+	case !reflect.DeepEqual(a.Slots, b.Slots):
+		return "slots"
+	case !reflect.DeepEqual(a.NodeHealthReports, b.NodeHealthReports):
+		return "node_health_reports"
+	case !reflect.DeepEqual(a.HashSlots, b.HashSlots):
+		return "hash_slots"
+	case !reflect.DeepEqual(a.Tasks, b.Tasks):
+		return "tasks"
+	case !reflect.DeepEqual(a.ScheduledBackup, b.ScheduledBackup):
+		return "scheduled_backup"
+	case !reflect.DeepEqual(a.OpsMCP, b.OpsMCP):
+		return "ops_mcp"
+	case !reflect.DeepEqual(a, b):
+		return "other"
+	}
+	return ""
+}
+
+func c18ShapeJSON(v any) string {
+	return fmt.Sprintf("%#v", v)
 }
 
 type c18Machine struct {
@@ -276,6 +321,10 @@ func c18ApplyBatch(r *verifkit.Run, variant string, m *c18Machine, entries []c18
 				if e2 != nil || !bytes.Equal(enc2, enc) {
 					r.Violation("persisted-state-differs:"+variant, map[string]any{"disk": string(c18Canon(loaded)), "published": string(enc)})
 				}
+				if sec := c18DeepDiff(snap, loaded); sec != "" {
+					r.Violation("restart-state-not-deep-equal:"+sec, map[string]any{"variant": variant, "published": c18ShapeJSON(snap), "decoded_from_store": c18ShapeJSON(loaded)})
+				}
+				r.Count("persisted_image_deep_equal_checks", 1)
 				if loaded.Checksum != snap.Checksum || snap.Checksum == "" {
 					r.Violation("checksum-mismatch:published", map[string]any{"decoded": loaded.Checksum, "carried": snap.Checksum})
 				}
@@ -368,6 +417,8 @@ func c18Entities(c command.Command) []string {
 }
 
 var c18AllKinds = []command.Kind{command.KindInitClusterState, command.KindUpsertNode, command.KindUpdateControllerVoters, command.KindPromoteControllerVoter, command.KindUpsertSlotAssignmentAndTask, command.KindUpsertSlotReplicaMoveTask, command.KindAdvanceSlotReplicaMovePhase, command.KindCommitSlotReplicaMove, command.KindCompleteTask, command.KindFailTask, command.KindReportTaskProgress, command.KindReportNodeHealth, command.KindReplaceHashSlotTable, command.KindReplaceScheduledBackupState, command.KindReplaceOpsMCPState}
+
+var c18ResendKinds = map[string]int{}
 
 var (
 	c18PairsInBatch = map[command.Kind]int{} // kind of the LATER command of a dependent pair that shares a batch
@@ -524,7 +575,7 @@ func c18RunReference(r *verifkit.Run, rng *rand.Rand, dir string, n int) *c18Ref
 			r.Violation("command-decode-of-encode-fails", map[string]any{"err": err.Error(), "raw": string(raw)})
 			return nil
 		}
-		e := c18Entry{Index: index, Term: term, Raw: raw, Cmd: dec}
+		e := c18Entry{Index: index, Term: term, Raw: raw, Cmd: dec, Resend: g.lastResend}
 		ref.entries = append(ref.entries, e)
 		res := c18ApplyBatch(r, "A", a, ref.entries, k, k+1)
 		if res == nil {
@@ -536,7 +587,11 @@ func c18RunReference(r *verifkit.Run, rng *rand.Rand, dir string, n int) *c18Ref
 		ref.states = append(ref.states, append([]byte(nil), a.canon...))
 		ref.snaps = append(ref.snaps, after)
 
+		g.noteResult(cmd, got.Changed || got.Updated)
 		class := c18Class(got)
+		if e.Resend != "" {
+			r.Count("resend_in_reference."+string(e.Resend)+"."+class, 1)
+		}
 		r.Count("outcome."+class, 1)
 		r.Count("kind."+string(cmd.Kind)+"."+class, 1)
 		if got.Reason != "" {
@@ -703,6 +758,66 @@ func TestVerifC18(t *testing.T) {
 			}
 		}
 
+		// ---- R: restart, then the FIRST command is an idempotent re-send ---------
+		// A restarted replica holds a state that went through the codec (state
+		// file Load, or raft snapshot -> state.Decode -> Restore); a replica that
+		// never restarted holds the state its handlers built. The first command
+		// after the restart sees that state untouched by any handler, so a verbatim
+		// re-send of the last effective command of a kind (Noop/reject in the
+		// reference) is the most shape-sensitive probe. Both restart paths, every
+		// re-send position of the log.
+		{
+			done := 0
+			for p := 1; p < n && done < 10; p++ {
+				kind := ref.entries[p].Resend
+				if kind == "" || ref.snaps[p-1].Revision == 0 {
+					continue
+				}
+				done++
+				for _, path := range []string{"state_file", "snapshot_restore"} {
+					var m *c18Machine
+					var err error
+					if path == "state_file" {
+						m, err = c18NewMemMachine(r, ref.states[p-1])
+						if err != nil {
+							r.Violation("load-of-persisted-state-fails:R", err.Error())
+							continue
+						}
+					} else {
+						m, err = c18NewMemMachine(r, nil)
+						if err != nil {
+							continue
+						}
+						st, derr := state.Decode(ref.states[p-1]) // raft snapshot payload = state.Encode bytes
+						if derr != nil {
+							r.Violation("decode-of-encode-fails:snapshot", derr.Error())
+							continue
+						}
+						if rerr := m.sm.Restore(c18Ctx, st); rerr != nil {
+							r.Violation("restore-of-snapshot-fails:R", rerr.Error())
+							continue
+						}
+					}
+					restarted := m.sm.Snapshot(c18Ctx)
+					if sec := c18DeepDiff(ref.snaps[p-1], restarted); sec != "" {
+						r.Violation("restart-state-not-deep-equal:"+sec, map[string]any{"variant": "R/" + path, "after_entry": p - 1, "never_restarted": c18ShapeJSON(ref.snaps[p-1]), "restarted": c18ShapeJSON(restarted)})
+					}
+					r.Count("restart_then_idempotent_resend."+path+"."+string(kind)+"."+c18Class(ref.results[p]), 1)
+					c18ResendKinds[path+"/"+string(kind)]++
+					res := c18ApplyBatch(r, "R", m, ref.entries, p, p+1)
+					if res == nil {
+						continue
+					}
+					c18Compare(r, "R/"+path, ref, m, res, p, p+1, p, 0, false)
+					if hi := p + 1 + rng.IntN(3); hi > p+1 && hi <= n {
+						if res := c18ApplyBatch(r, "R", m, ref.entries, p+1, hi); res != nil {
+							c18Compare(r, "R/"+path, ref, m, res, p+1, hi, hi-1, 0, false)
+						}
+					}
+				}
+			}
+		}
+
 		// ---- C: restart from the state file + overlapping replay -------------
 		for v := 0; v < 2; v++ {
 			path := filepath.Join(dir, fmt.Sprintf("c%d.json", v))
@@ -757,6 +872,8 @@ func TestVerifC18(t *testing.T) {
 					}
 				} else if !bytes.Equal(c18Canon(reloaded), ref.states[pos-1]) {
 					r.Violation("restart-state-differs", map[string]any{"after_entry": pos - 1, "got": string(c18Canon(reloaded)), "want": string(ref.states[pos-1])})
+				} else if sec := c18DeepDiff(want, reloaded); sec != "" {
+					r.Violation("restart-state-not-deep-equal:"+sec, map[string]any{"variant": "C", "after_entry": pos - 1, "never_restarted": c18ShapeJSON(want), "reloaded": c18ShapeJSON(reloaded)})
 				}
 				m = m2
 				applied := reloaded.AppliedRaftIndex
@@ -874,6 +991,15 @@ func TestVerifC18(t *testing.T) {
 			zeroSplit = append(zeroSplit, string(k))
 		}
 	}
+	zeroResend := []string{}
+	for _, path := range []string{"state_file", "snapshot_restore"} {
+		for _, k := range c18AllKinds {
+			if c18ResendKinds[path+"/"+string(k)] == 0 {
+				zeroResend = append(zeroResend, path+"/"+string(k))
+			}
+		}
+	}
+	r.Note("kinds_without_restart_followed_by_idempotent_resend", zeroResend)
 	r.Note("kinds_without_dependent_pair_in_one_batch", zeroIn)
 	r.Note("kinds_without_dependent_pair_split_by_boundary", zeroSplit)
 }
